@@ -111,8 +111,18 @@ def main():
         f = nixio.File.open(path, nixio.FileMode.Overwrite)
         sec = f.create_section("s", "t")
         obs = []
-        for op in ops:
+        # two Python objects of the one section and, per name, the Property object that was obtained first: the calls
+        # alternate between the objects; after every call both sections must show the same state
+        secs = [sec, f.sections["s"]]
+        kept = {}
+
+        def prop(name):
+            fresh = sec.props[name]
+            old = kept.setdefault(name, fresh)
+            return old if (nop + k) % 3 == 0 else fresh
+        for nop, op in enumerate(ops):
             t = op[0]
+            sec = secs[(nop + k) % 2]
             try:
                 if t == "create":
                     sec.create_property(NAMES[op[1]], [dec(v) for v in op[2]] if not op[3] else dec(op[2][0]))
@@ -121,7 +131,7 @@ def main():
                     sec.create_property(NAMES[op[1]], TY[op[2]])
                     res = [0]
                 elif t == "set":
-                    p = sec.props[NAMES[op[1]]]
+                    p = prop(NAMES[op[1]])
                     if op[3] == "none":
                         p.values = None
                     elif op[3] == "scalar":
@@ -132,7 +142,7 @@ def main():
                         p.values = [dec(v) for v in op[2]]
                     res = [0]
                 elif t == "extend":
-                    p = sec.props[NAMES[op[1]]]
+                    p = prop(NAMES[op[1]])
                     p.extend_values([dec(v) for v in op[2]])
                     res = [0]
                 elif t == "dget":
@@ -147,6 +157,7 @@ def main():
                     res = [0]
                 elif t == "ddel":
                     del sec[NAMES[op[1]]]
+                    kept.pop(NAMES[op[1]], None)
                     res = [0]
                 elif t == "sub":
                     sec.create_section(NAMES[op[1]], "t")
@@ -155,12 +166,16 @@ def main():
                     f.close()
                     gc.collect()
                     f = nixio.File.open(path, nixio.FileMode.ReadWrite)
-                    sec = f.sections["s"]
+                    secs = [f.sections["s"], f.sections["s"]]
+                    sec = secs[0]
+                    kept = {}
                     res = [0]
             except Exception as exc:
                 res = err(exc)
             try:
-                obs.append(res + [-7] + state(sec) + [-7] + dict_view(sec))
+                a = state(secs[0]) + [-7] + dict_view(secs[0])
+                b = state(secs[1]) + [-7] + dict_view(secs[1])
+                obs.append(res + [-7] + a if a == b else res + [-7, -98, -7, -98])
             except Exception as exc:
                 obs.append(res + [-7, -99, -7, -99])
         f.close()
